@@ -63,7 +63,7 @@ def run(ctx):
     for b in behs:
         ctx.count(b, nontrivial=_retry.nontrivial(b))
     ctx.sample(next((b for b in behs if len(b["scripts"]) >= 4), behs[0]))
-    _retry.judge(ctx, "RetryTraceC19.cfg", tpath, behs, "inter-attempt delays of e2e executions")
+    _retry.judge(ctx, "RetryTraceC19.cfg", tpath, behs, "e2e executions (delays, token ledger across RPCs)")
 
     # ---------------- (b) token bucket
     ctx.mc("RetryThrottleMC", "RetryThrottleMC.cfg", workers=2)
